@@ -400,6 +400,16 @@ func genAlignMatrix(r *rand.Rand, sp matSpec) align.SubstitutionMatrix {
 			m[key] = v * sp.scale
 		}
 	}
+	if r.IntN(40) == 0 {
+		// "Forbidden" gaps, the finite way: every gap score is the most negative
+		// float (one gap is absorbing, two overflow to -Inf). Sums stay
+		// order-independent, so the oracles remain exact.
+		forbid := pick(r, []float64{-math.MaxFloat64, -1e308})
+		for _, x := range sp.alpha {
+			m[[2]byte{x, gapB}] = forbid
+			m[[2]byte{gapB, x}] = forbid
+		}
+	}
 	return m
 }
 
